@@ -205,9 +205,34 @@ func (t *Tables) MapKeys(g *ssa.Global) (TySet, bool, string) {
 					if !isInitFn(fn) || fn.Pkg != g.Pkg {
 						okAll = false
 						why = "map variable " + g.Name() + " reassigned in " + t.P.FnKey(fn)
-					} else if _, isMake := x.Val.(*ssa.MakeMap); !isMake {
+					} else if mk, isMake := x.Val.(*ssa.MakeMap); !isMake {
 						okAll = false
 						why = "map variable " + g.Name() + " assigned a non-fresh map"
+					} else {
+						// the map may be filled before it is published: every other use of the fresh
+						// map is an update with a constant key
+						for _, r := range referrers(mk) {
+							switch u := r.(type) {
+							case *ssa.MapUpdate:
+								k, ok := constInt(u.Key)
+								if u.Map != ssa.Value(mk) || !ok {
+									okAll = false
+									why = "non-constant key written to " + g.Name()
+									continue
+								}
+								writes++
+								set.Add(int(k))
+							case *ssa.Store:
+								if u != x {
+									okAll = false
+									why = "the map assigned to " + g.Name() + " is stored elsewhere too"
+								}
+							case *ssa.DebugRef:
+							default:
+								okAll = false
+								why = "the map assigned to " + g.Name() + " escapes before it is published"
+							}
+						}
 					}
 				}
 			}
@@ -600,7 +625,6 @@ func (pa *Partition) describeUnknown() string {
 	return strings.Join(s, "; ")
 }
 
-
 // intTab evaluates an integer SSA value as a table over the type domain.
 func (pa *Partition) intTab(v ssa.Value, ctx TySet, depth int) (*itab, bool) {
 	if depth > 24 {
@@ -761,6 +785,19 @@ func (pa *Partition) evalCall(call *ssa.Call, ctx TySet) ([]*itab, bool) {
 		return nil, false
 	}
 	sub := &Partition{Fn: f, Reach: map[*ssa.BasicBlock]TySet{}, Edge: map[[2]*ssa.BasicBlock]TySet{}, t: pa.t, strict: true, env: env, depth: pa.depth + 1}
+	// in the callee the subject is a parameter bound to the message type itself
+	sub.subj = subject{isSubject: func(v ssa.Value) bool {
+		t := env[v]
+		if t == nil || !FullSet().Subset(t.def) {
+			return false
+		}
+		for i := 0; i < tyN; i++ {
+			if t.v[i] != int64(i+tyMin) {
+				return false
+			}
+		}
+		return true
+	}}
 	order, acyclic := topoBlocks(f)
 	if !acyclic || len(order) == 0 {
 		return nil, false
